@@ -38,7 +38,7 @@ ASSUMPTIONS = [
 def floors(tier):
     return {"bf=0": 300, "bf=1": 300, "mode=GET": 200, "mode=SET": 100, "mode=POLL": 100,
             "count=0": 20, "count>=100": 5, "nested": 2, "variant": 20, "none-group": 20,
-            "neg": 50, "scaled": 100, "after-failed-operation": 500}
+            "neg": 50, "scaled": 100, "after-failed-operation": 500, "via-reader": 1000}
 
 
 def eligible(t):
@@ -98,9 +98,9 @@ def case_strategy(t, bf, tier):
     big = True
     inst = layout.instances(t.defn, mode=t.mode, clsid=t.clsid, forced=forced or {},
                             max_payload=65535 if tier == "thorough" else 16000, big_counts=big)
-    return st.tuples(inst, preludes(t)).map(lambda np: {"kind": "layout", "mode": t.mode, "clsid": t.clsid,
-                                                         "defname": t.defname, "bf": bf, "nodes": np[0],
-                                                         "prelude": np[1]})
+    return st.tuples(inst, preludes(t), st.sampled_from([None, None, 0, 1])).map(
+        lambda np: {"kind": "layout", "mode": t.mode, "clsid": t.clsid, "defname": t.defname, "bf": bf,
+                    "nodes": np[0], "prelude": np[1], "via_reader": np[2]})
 
 
 def run_shard(spec, ctx, acc):
@@ -180,6 +180,25 @@ def check(case) -> core.Out:
         out.viol.append((key + f"raises:{type(err).__name__}", f"{type(err).__name__}: {err}"[:300]))
         return out
     actual = C.public_attrs(msg)
+    if case.get("via_reader") is not None:
+        # the same frame through a reader object configured with the same options
+        # (validate on or off) must be parsed identically
+        import io
+        import logging
+
+        out.classes = list(out.classes) + ["via-reader"]
+        logging.disable(logging.CRITICAL)
+        try:
+            rd = pyubx2.UBXReader(io.BytesIO(frame), msgmode=mode, parsebitfield=bf,
+                                  validate=case["via_reader"], quitonerror=2)
+            _raw, m2 = rd.read()
+            if m2 is None or C.public_attrs(m2) != actual and repr(C.public_attrs(m2)) != repr(actual):
+                out.viol.append((key + "reader-differs", f"reader(validate={case['via_reader']}, parsebitfield={bf}) "
+                                                         f"parses the frame differently from UBXReader.parse"))
+        except Exception as err:  # noqa
+            out.viol.append((key + f"reader-raises:{type(err).__name__}", repr(err)[:200]))
+        finally:
+            logging.disable(logging.NOTSET)
     if catalog.has_ch(t.defn) and len(payload) == 0 and not actual:
         out.viol.append((key.rsplit("bf=", 1)[0] + "empty-CH",
                          "zero-length text payload: attribute not exposed"))
